@@ -172,8 +172,6 @@ def families():
 def outcome(f):
     try:
         return ("ok", repr(f()))
-    except RecursionError:
-        raise
     except BaseException as e:        # noqa
         return ("err", type(e).__name__)
 
@@ -186,8 +184,6 @@ def probe(conv, fam, back_conv=None):
         out.append((f"unstructure({x!r}, {T})", r))
         try:
             u = conv.unstructure(copy.deepcopy(x), unstructure_as=T)
-        except RecursionError:
-            raise
         except BaseException:      # noqa
             continue
         back = outcome(lambda: conv.structure(copy.deepcopy(u), T))
